@@ -13,6 +13,11 @@ def make_text(rnd, i):
         n = rnd.randint(15, 23)
         tail = rnd.choice([None, 'fail', 'cut', 'tru', ('neg', ('call', 'q', []))])
         cl = [cgen.long_conjunction(rnd, n, rnd.randint(0, 3), tail), ('q', [], 'tru')]
+        # clauses before it whose blocks are empty (nothing can be emitted for them): the limit is per clause
+        for _ in range(rnd.choice([0, 0, 1, 2, 3])):
+            e = rnd.choice([('disj', ('ite', 'fail', 'tru'), 'fail'), ('ite', 'fail', 'tru'), ('neg', 'tru'),
+                            ('conj', ('disj', ('ite', 'fail', 'tru'), 'fail'), ('ite', 'fail', ('call', 'q', [])))])
+            cl.insert(0, ('e', [], e, True))
         return S.program_text(cl), 'long-conjunction'
     if k == 1:
         d = rnd.randint(90, 104)
